@@ -6,11 +6,13 @@ import (
 	"bytes"
 	ejson "encoding/json"
 	"fmt"
+	"io"
 	"os"
 	"path/filepath"
 	"sync"
 	"sync/atomic"
 	"testing"
+	"time"
 
 	"pgregory.net/rapid"
 )
@@ -50,11 +52,30 @@ type c06Case struct {
 
 var c06Enabled uint32 = 0xffffffff
 
+// c06Tagged: an input that starts with "VF<digits>:" is accepted by extension k iff the digit k
+// is among the digits, so that one input can satisfy several extensions at once.
+func c06Tagged(raw []byte, k int) bool {
+	if len(raw) < 3 || raw[0] != 'V' || raw[1] != 'F' {
+		return false
+	}
+	found := false
+	for _, b := range raw[2:] {
+		switch {
+		case b == ':':
+			return found
+		case b < '0' || b > '9':
+			return false
+		case int(b-'0') == k:
+			found = true
+		}
+	}
+	return false // tag not terminated inside the header
+}
+
 func c06Pred(k int) func([]byte, uint32) bool {
-	magic := []byte(fmt.Sprintf("VF%d:", k))
 	bit := uint32(1) << uint(k)
 	return func(raw []byte, _ uint32) bool {
-		return atomic.LoadUint32(&c06Enabled)&bit != 0 && bytes.HasPrefix(raw, magic)
+		return atomic.LoadUint32(&c06Enabled)&bit != 0 && c06Tagged(raw, k)
 	}
 }
 
@@ -214,6 +235,9 @@ func c06Check(c c06Case) vfResult {
 			for L := range limits {
 				SetLimit(L)
 				for mask := uint32(0); mask < 1<<uint(len(c.Exts)); mask++ {
+					if !c06MaskConsistent(c, mask) {
+						continue
+					}
 					atomic.StoreUint32(&c06Enabled, mask)
 					a[vfChainStr(Detect(inputs[in]))] = true
 				}
@@ -260,6 +284,27 @@ func c06Check(c c06Case) vfResult {
 	return r
 }
 
+// c06MaskConsistent: a goroutine registers its extensions in program order, so at every instant
+// the registered ones form a prefix of that order.
+func c06MaskConsistent(c c06Case, mask uint32) bool {
+	for _, p := range c.Progs {
+		gap := false
+		for _, o := range p {
+			if o.Op != "extend" {
+				continue
+			}
+			on := mask&(1<<uint(o.Ext)) != 0
+			if on && gap {
+				return false
+			}
+			if !on {
+				gap = true
+			}
+		}
+	}
+	return true
+}
+
 func c06Gen(t *rapid.T) c06Case {
 	var c c06Case
 	next := rapid.IntRange(0, 4).Draw(t, "next")
@@ -292,7 +337,13 @@ func c06Gen(t *rapid.T) c06Case {
 			x = []byte(vfGenTextish(t))
 		}
 		if next > 0 && rapid.Bool().Draw(t, "magic") {
-			x = append([]byte(fmt.Sprintf("VF%d:", rapid.IntRange(0, next-1).Draw(t, "mk"))), x...)
+			tag := "VF"
+			for k := 0; k < next; k++ {
+				if rapid.Bool().Draw(t, "tagbit") {
+					tag += fmt.Sprint(k)
+				}
+			}
+			x = append([]byte(tag+":"), x...)
 		}
 		if len(x) > 2000 {
 			x = x[:2000]
@@ -340,8 +391,230 @@ func c06Gen(t *rapid.T) c06Case {
 	return c
 }
 
-func TestVerif_C06(t *testing.T) {
+
+// ---------------------------------------------------------------------------------
+// gated: the harness owns the schedule. A hook extension (always rejecting) is registered under
+// a generated parent; when the reader's walk reaches it, the hook releases a writer goroutine
+// (Extend / SetLimit sequence) and waits for it - with a time-out, because under correct
+// locking the writer cannot make progress until the walk is over. Alternatively the hook is
+// the first Read call of a reader. The result must be what a sequential execution returns for
+// some prefix of the writer's Extend sequence and some limit in force during the call.
+
+type c06GWrite struct {
+	Op     string `json:"op"` // extend | setlimit
+	Parent string `json:"parent,omitempty"`
+	Tag    int    `json:"tag,omitempty"`
+	Limit  uint32 `json:"limit,omitempty"`
+}
+
+type c06Gated struct {
+	Input      vfB         `json:"input"`
+	HookParent string      `json:"hook_parent"` // "" = root
+	HookInRead bool        `json:"hook_in_read"`
+	Writes     []c06GWrite `json:"writes"`
+}
+
+type c06GateReader struct {
+	data []byte
+	off  int
+	gate func()
+}
+
+func (r *c06GateReader) Read(p []byte) (int, error) {
+	if r.gate != nil {
+		g := r.gate
+		r.gate = nil
+		g()
+	}
+	if r.off >= len(r.data) {
+		return 0, io.EOF
+	}
+	n := copy(p, r.data[r.off:])
+	r.off += n
+	return n, nil
+}
+
+func c06GMime(k int) string { return fmt.Sprintf("application/x-verif-g%d", k) }
+
+func c06GApply(w c06GWrite, k int) {
+	pred := func(raw []byte, _ uint32) bool { return c06Tagged(raw, w.Tag) }
+	if w.Parent == "" {
+		Extend(pred, c06GMime(k), fmt.Sprintf(".g%d", k))
+	} else if p := Lookup(w.Parent); p != nil {
+		p.Extend(pred, c06GMime(k), fmt.Sprintf(".g%d", k))
+	}
+}
+
+func c06GatedCheck(c c06Gated) vfResult {
+	var r vfResult
+	vfJournal("C06", "gated", c)
 	vfTreeSnapshot()
+	defer func() {
+		vfTreeRestore()
+		SetLimit(defaultLimit)
+	}()
+	input := []byte(c.Input)
+	var armed int32
+	started := make(chan struct{})
+	done := make(chan struct{})
+	reached := false
+	gate := func() {
+		if atomic.CompareAndSwapInt32(&armed, 1, 0) {
+			reached = true
+			close(started)
+			select {
+			case <-done:
+			case <-time.After(3 * time.Millisecond):
+			}
+		}
+	}
+	hook := func([]byte, uint32) bool { gate(); return false }
+	regHook := func() {
+		if c.HookInRead {
+			return
+		}
+		if c.HookParent == "" {
+			Extend(hook, "application/x-verif-hook", ".hook")
+		} else if p := Lookup(c.HookParent); p != nil {
+			p.Extend(hook, "application/x-verif-hook", ".hook")
+		}
+	}
+	vfTreeRestore()
+	SetLimit(defaultLimit)
+	regHook()
+	atomic.StoreInt32(&armed, 1)
+	var wg sync.WaitGroup
+	wg.Add(1)
+	go func() {
+		defer wg.Done()
+		select {
+		case <-started:
+		case <-time.After(20 * time.Millisecond):
+		}
+		for k, w := range c.Writes {
+			if w.Op == "setlimit" {
+				SetLimit(w.Limit)
+			} else {
+				c06GApply(w, k)
+			}
+		}
+		close(done)
+	}()
+	var got *MIME
+	var err error
+	if c.HookInRead {
+		got, err = DetectReader(&c06GateReader{data: input, gate: gate})
+	} else {
+		got = Detect(input)
+	}
+	wg.Wait()
+	atomic.StoreInt32(&armed, 0)
+	if err != nil || got == nil {
+		r.Err = fmt.Errorf("detection returned (%v, %v)", got, err)
+		return r
+	}
+	res := vfChainStr(got)
+	// admissible: every prefix of the Extend sequence x every limit in force during the call
+	limits := []uint32{defaultLimit}
+	for _, w := range c.Writes {
+		if w.Op == "setlimit" {
+			limits = append(limits, w.Limit)
+		}
+	}
+	adm := map[string]bool{}
+	for p := 0; p <= len(c.Writes); p++ {
+		if p > 0 && c.Writes[p-1].Op != "extend" {
+			continue
+		}
+		vfTreeRestore()
+		regHook()
+		for k, w := range c.Writes[:p] {
+			if w.Op == "extend" {
+				c06GApply(w, k)
+			}
+		}
+		for _, L := range limits {
+			SetLimit(L)
+			adm[vfChainStr(Detect(input))] = true
+		}
+	}
+	SetLimit(defaultLimit)
+	if !adm[res] {
+		var list []string
+		for k := range adm {
+			list = append(list, k)
+		}
+		r.Err = fmt.Errorf("detection overlapped by the writer sequence %+v returned %q, which no sequential execution returns for any prefix of that sequence (admissible: %q); input %s, hook under %q (in Read: %v)", c.Writes, res, list, vfQ(input), c.HookParent, c.HookInRead)
+		return r
+	}
+	r.Nontrivial = reached && len(adm) >= 2
+	if reached {
+		r.Labels = append(r.Labels, "hook-reached")
+	} else {
+		r.Labels = append(r.Labels, "hook-not-reached")
+	}
+	r.Labels = append(r.Labels, fmt.Sprintf("admissible-%d", min(len(adm), 4)))
+	cb, _ := ejson.Marshal(c)
+	r.Hash = vfHash(cb)
+	return r
+}
+
+func c06GatedGen(t *rapid.T) c06Gated {
+	var c c06Gated
+	c.HookInRead = rapid.IntRange(0, 3).Draw(t, "inread") == 0
+	c.HookParent = rapid.SampledFrom([]string{"", "", "text/plain", "text/plain", "application/json", "application/zip"}).Draw(t, "hookparent")
+	n := rapid.IntRange(1, 4).Draw(t, "nw")
+	tag := "VF"
+	for k := 0; k < n; k++ {
+		if rapid.IntRange(0, 4).Draw(t, "wk") == 0 {
+			c.Writes = append(c.Writes, c06GWrite{Op: "setlimit", Limit: rapid.SampledFrom([]uint32{0, 1, 4, 16, 3072, 1 << 16}).Draw(t, "lim")})
+			continue
+		}
+		parents := []string{"", "", "text/plain", "text/plain", "application/json", "application/zip"}
+		for j := 0; j < k; j++ {
+			if c.Writes[j].Op == "extend" {
+				parents = append(parents, c06GMime(j))
+			}
+		}
+		c.Writes = append(c.Writes, c06GWrite{Op: "extend", Parent: rapid.SampledFrom(parents).Draw(t, "parent"), Tag: k})
+		if rapid.IntRange(0, 3).Draw(t, "tagged") > 0 {
+			tag += fmt.Sprint(k)
+		}
+	}
+	var body []byte
+	switch rapid.IntRange(0, 3).Draw(t, "body") {
+	case 0:
+		body = []byte(rapid.SampledFrom(c04Special).Draw(t, "sp"))
+	case 1:
+		body = []byte(vfGenTextish(t))
+	case 2:
+		body = []byte("plain text body, long enough to go past tiny limits .........")
+	default:
+		body = vfGenSeed(t)
+		if len(body) > 800 {
+			body = body[:800]
+		}
+	}
+	if rapid.IntRange(0, 5).Draw(t, "notag") == 0 {
+		c.Input = body
+	} else {
+		c.Input = append([]byte(tag+":"), body...)
+	}
+	return c
+}
+
+func TestVerif_C06(t *testing.T) {
+	defer vfStats.dump()
+	vfTreeSnapshot()
+	if vfOnlySub("gated") {
+		vfRun(t, vfSub[c06Gated]{Prop: "C06", Name: "gated", Checks: vfN(4000, 400000), Gen: c06GatedGen, Check: c06GatedCheck})
+	}
+	if t.Failed() {
+		return
+	}
+	if !vfOnlySub("progs") {
+		return
+	}
 	vfRun(t, vfSub[c06Case]{Prop: "C06", Name: "progs", Checks: vfN(2400, 320000), Gen: c06Gen, Check: c06Check,
 		Sample: func(c c06Case) any {
 			var progs [][]string
